@@ -41,3 +41,44 @@ func (p *PCT) Pick(step int, en []*vrt.G, me *vrt.G, clockOK bool) (*vrt.G, bool
 	}
 	return best, false
 }
+
+// PCTL is PCT whose priority-change points are placed by operation label: the
+// k-th occurrence of a scheduling point with a given label (e.g. the 2nd Cond.Wait),
+// instead of a uniformly drawn step. Rare operations are hit far more often.
+type PCTL struct {
+	PCT
+	marks map[string]map[int]bool
+	seen  map[string]int
+}
+
+// Labels are the scheduling-point names the runtime and its shims use.
+var Labels = []string{"atomic.Load", "atomic.Store", "atomic.Add", "atomic.CAS", "Mutex.Lock", "Mutex.Unlock", "RWMutex.Lock", "RWMutex.Unlock", "RWMutex.RLock", "RWMutex.RUnlock",
+	"WaitGroup.Add", "WaitGroup.Wait", "Cond.Wait", "Cond.Broadcast", "chan send", "chan recv", "chan close", "select", "go", "Pool.Get", "Pool.Put", "time.Now", "wf", "gate", "adapter.Enqueue", "adapter.Dequeue", "adapter.Acknowledge", "adapter.Len", "cancel"}
+
+func NewPCTL(seed uint64, marks [][2]int) *PCTL {
+	p := &PCTL{PCT: *NewPCT(seed, 1, 1), marks: map[string]map[int]bool{}, seen: map[string]int{}}
+	for _, m := range marks {
+		l := Labels[m[0]%len(Labels)]
+		if p.marks[l] == nil {
+			p.marks[l] = map[int]bool{}
+		}
+		p.marks[l][m[1]] = true
+	}
+	return p
+}
+
+func (p *PCTL) Pick(step int, en []*vrt.G, me *vrt.G, clockOK bool) (*vrt.G, bool) {
+	w := vrt.CurWhat()
+	if i := len(w); i > 7 && w[:7] == "select " {
+		w = "select"
+	}
+	if me != nil {
+		k := p.seen[w]
+		p.seen[w] = k + 1
+		if p.marks[w][k] {
+			p.low--
+			p.prio[me.ID] = p.low
+		}
+	}
+	return p.PCT.Pick(-1, en, me, clockOK)
+}
